@@ -384,8 +384,14 @@ func (Spec) MakeInterest(name enc.Name, config *ndn.InterestConfig, appParam enc
 			Names: config.ForwardingHint,
 		}
 	}
+	// The encoder drops a trailing ParametersSha256DigestComponent and appends a fresh one
+	// to the name it is given, and the digest is patched into that component afterwards.
+	// Work on a private slice: writing into the caller's backing array would rewrite the
+	// caller's name and the FinalName of every Interest built from the same array before.
+	nameV := make(enc.Name, len(name), len(name)+1)
+	copy(nameV, name)
 	interest := &Interest{
-		NameV:                 name,
+		NameV:                 nameV,
 		CanBePrefixV:          config.CanBePrefix,
 		MustBeFreshV:          config.MustBeFresh,
 		ForwardingHintV:       forwardingHint,
